@@ -8,4 +8,6 @@ INVARIANT Defaults
 INVARIANT Rejects
 INVARIANT Passthrough
 INVARIANT ShortCircuit
+INVARIANT CtorLaw
+INVARIANT Unorderable
 CHECK_DEADLOCK FALSE
